@@ -333,7 +333,67 @@ func c17RunDoc(c *Ctx, k c17Case) {
 	}
 }
 
+// c17Literal: a sequence of literal units of spec/JsonString.tla as a string token - on its own, as an element, a member
+// name and a member value: one token of class String whose decoded value (String, RawValue.Unquote) is what the
+// definition says, escapes resolved and invalid UTF-8 replaced; a Reset tokenizer gives the same
+func c17Literal(c *Ctx, k strCase) {
+	v := k.Str
+	if !v.OK {
+		return // broken literals are C05's
+	}
+	lits, dec, ok := renderLit(v, k.Var)
+	if !ok {
+		c.SpecError("C17", "unknown literal unit", k)
+		return
+	}
+	pad := strings.Repeat(strPad, k.Pads[0])
+	lit := `"` + pad + strings.Join(lits, "") + `"`
+	want := pad
+	for i := range lits {
+		want += dec[i]
+	}
+	for wi, doc := range []string{lit, "[" + lit + "]", "{" + lit + ":" + lit + "}", `{"k":[` + lit + `,1]}`} {
+		tok := json.NewTokenizer([]byte(doc))
+		for round := 0; round < 2; round++ {
+			n := 0
+			c.Eval(1)
+			for tok.Next() {
+				if tok.Kind().Class() != json.String || string(tok.Value) == `"k"` {
+					continue
+				}
+				n++
+				if got := string(tok.String()); got != want {
+					c.Diverge("C17", "Tokenizer.String", fmt.Sprintf("%q", clipS(want)), fmt.Sprintf("%q (document form %d, round %d)", clipS(got), wi, round), "", k)
+					return
+				}
+				if got := string(json.RawValue(tok.Value).Unquote()); got != want {
+					c.Diverge("C17", "RawValue.Unquote", fmt.Sprintf("%q", clipS(want)), fmt.Sprintf("%q", clipS(got)), "", k)
+					return
+				}
+			}
+			if wantN := []int{1, 1, 2, 1}[wi]; n != wantN || tok.Err != nil {
+				c.Diverge("C17", "Tokenizer(string tokens)", fmt.Sprintf("%d string token(s), no error", wantN), fmt.Sprintf("%d, err=%v", n, tok.Err), "", k)
+				return
+			}
+			tok.Reset([]byte(doc))
+		}
+	}
+}
+
 func c17Vector(c *Ctx, raw stdjson.RawMessage) {
+	var sv strVec
+	if stdjson.Unmarshal(raw, &sv) == nil && sv.Dir == "unesc" {
+		c.Nontrivial()
+		for _, vr := range []int{int(c.Seed), int(c.Seed) + 1} {
+			for _, front := range []int{0, 3, 8, 13} {
+				pads := make([]int, len(sv.S)+1)
+				pads[0] = front
+				c.Case()
+				c17Literal(c, strCase{Str: &sv, Var: vr, Pads: pads})
+			}
+		}
+		return
+	}
 	var v tokVec
 	if err := stdjson.Unmarshal(raw, &v); err != nil || len(v.T) != len(v.W) {
 		c.SpecError("C17", "bad vector", string(raw))
@@ -364,6 +424,11 @@ func c17Vector(c *Ctx, raw stdjson.RawMessage) {
 }
 
 func c17Replay(c *Ctx, raw stdjson.RawMessage) {
+	var sk strCase
+	if stdjson.Unmarshal(raw, &sk) == nil && sk.Str != nil {
+		c17Literal(c, sk)
+		return
+	}
 	var k c17Case
 	if stdjson.Unmarshal(raw, &k) != nil {
 		return
